@@ -1226,6 +1226,12 @@ class MyPyAstVisitor:
                 f"Expected parent for {name} in module {self.mypy_file.fullname} to be a class or a module.",
             )  # pragma: no cover
 
+        # Attributes which are assigned in the constructor belong to the class, like the attributes of the class body
+        if isinstance(parent, Function) and len(self.__declaration_stack) > 1:
+            grand_parent = self.__declaration_stack[-2]
+            if isinstance(grand_parent, Class):
+                parent = grand_parent
+
         if not isinstance(parent, Function):
             _check_publicity_with_reexports: bool | None = self._check_publicity_in_reexports(name, qname, parent)
 
